@@ -202,7 +202,7 @@ def run_standard(case):
         res["budget_exceeded"] = str(e)
     except BaseException as e:
         res["error"] = f"{type(e).__name__}: {e}"
-        res["traceback"] = traceback.format_exc()[-1500:]
+        res["traceback"] = traceback.format_exc()[-4000:]
         res["points_at_error"] = int(model.b_points)
     finally:
         mon.disarm()
@@ -296,7 +296,7 @@ def run_ins(case):
         res["budget_exceeded"] = str(e)
     except BaseException as e:
         res["error"] = f"{type(e).__name__}: {e}"
-        res["traceback"] = traceback.format_exc()[-1500:]
+        res["traceback"] = traceback.format_exc()[-4000:]
     finally:
         mon.disarm()
         try:
